@@ -127,6 +127,11 @@ static void vh_load_nonce_seq(const jv *in, vh_nonce_seq *s) {
 #else
 #define VH_OPS_BPPP
 #endif
+#ifdef VH_G_MUSIGNONCE
+#include "ops_musignonce.h"
+#else
+#define VH_OPS_MUSIGNONCE
+#endif
 #ifdef VH_G_CTX
 #include "ops_ctx.h"
 #else
@@ -164,6 +169,7 @@ static const vh_op OPS[] = {
     VH_OPS_ECDH
     VH_OPS_ELLSWIFT
     VH_OPS_BPPP
+    VH_OPS_MUSIGNONCE
     VH_OPS_CTX
     VH_OPS_KERNEL
     VH_OPS_UNTRUSTED
